@@ -332,6 +332,10 @@ class Qube(object):
         drank = drank or 0
         rank = nrank + drank
 
+        if nrank < 0 or drank < 0:
+            raise ValueError('invalid %s numerator or denominator rank: %d, %d'
+                             % (opstr, nrank, drank))
+
         if derivs and not self.DERIVS_OK:
             raise ValueError('%s derivatives are disallowed' % opstr)
 
